@@ -784,11 +784,13 @@ where
                 self.resample_ratio = new_ratio;
             }
             self.target_ratio = new_ratio;
-            self.needed_input_size = (self.last_index as f32
-                + self.chunk_size as f32
-                    / (0.5 * self.resample_ratio as f32 + 0.5 * self.target_ratio as f32))
-                .ceil() as usize
-                + POLYNOMIAL_LEN_U;
+            // The position advances by t0 + k * (t1 - t0) / chunk_size for k = 1..=chunk_size.
+            let t_ratio = 1.0 / self.resample_ratio;
+            let t_ratio_end = 1.0 / self.target_ratio;
+            let advance = self.chunk_size as f64 * t_ratio
+                + (t_ratio_end - t_ratio) * (self.chunk_size as f64 + 1.0) / 2.0;
+            self.needed_input_size =
+                (self.last_index + advance + POLYNOMIAL_LEN_U as f64).ceil() as usize;
             Ok(())
         } else {
             Err(ResampleError::RatioOutOfBounds {
